@@ -31,6 +31,7 @@ class Facts:
         self.mods = d['mods']
         self.uses = d['uses']
         self.consts = d['consts']
+        self.items = d['items']
         self.fn_by_path = {}
         for f in d['fns']:
             self.fn_by_path.setdefault(f['path'], f)
@@ -554,7 +555,7 @@ class Exec:
                 return f
             if rv['kind'] == 'Transmute':
                 st.events.append(('transmute', ty))
-            return ('cast', rv['kind'], ty, a)
+            return ('cast', rv['kind'], ty, a, self.facts.tys(rv['from']) if 'from' in rv else None)
         if r == 'bin':
             a = self.operand(st, fn, rv['a'])
             b = self.operand(st, fn, rv['b'])
